@@ -123,8 +123,14 @@ func VfNewFullRT() {
 		h.nw.conns[p] = true
 	}
 	acc := true
-	opts := []Option{WithCrawler(cr), WithIPDiversityFilterLimit(limit),
-		DHTOption(kaddht.BucketSize(K), kaddht.Validator(vfRankValidator{&acc}))}
+	opts := []Option{WithCrawler(cr), WithIPDiversityFilterLimit(limit)}
+	noBucketSize := vfParam("NOBUCKET") == 1 && vfBool("bucketSizeOptionMissing")
+	if noBucketSize {
+		// a construction option is missing: the hand-built config leaves the bucket size at 0
+		opts = append(opts, DHTOption(kaddht.Validator(vfRankValidator{&acc})))
+	} else {
+		opts = append(opts, DHTOption(kaddht.BucketSize(K), kaddht.Validator(vfRankValidator{&acc})))
+	}
 	// how construction goes wrong, if at all
 	fault := vfChoose("constructorFault", 4)
 	switch fault {
@@ -148,6 +154,15 @@ func VfNewFullRT() {
 	vfWaitIdle() // the initial crawl completes
 	vfAssert(cr.runs == 1, "fullrt/initial-crawl-ran-once")
 	key := string(vfHashInput("key", nil, 8))
+	if noBucketSize {
+		// an error or some result, but neither a panic nor a hang
+		vfMustFinishWithin(200000)
+		_, _ = d.GetClosestPeers(context.Background(), key)
+		vfFinished()
+		vfAssert(d.Close() == nil, "fullrt/close")
+		vfReach("fullrt/new-without-bucket-size-end")
+		return
+	}
 	got, gerr := d.GetClosestPeers(context.Background(), key)
 	vfAssert(gerr == nil && len(got) <= K, "fullrt/at-most-K")
 	per := map[int]int{}
@@ -164,6 +179,38 @@ func VfNewFullRT() {
 			want = N
 		}
 		vfAssert(len(got) == want, "fullrt/limit-disabled-returns-the-K-nearest")
+	}
+	// a second crawl in which some peers are no longer reported (no failure either)
+	if vfBool("secondCrawl") {
+		var still []peer.ID
+		gone := map[peer.ID]bool{}
+		for _, p := range cr.peers {
+			if vfBool("secondCrawl.peerStillThere") {
+				still = append(still, p)
+			} else {
+				gone[p] = true
+			}
+		}
+		cr.peers = still
+		vfAssert(d.TriggerRefresh(context.Background()) == nil, "fullrt/trigger-refresh")
+		vfWaitIdle()
+		vfAssert(cr.runs == 2, "fullrt/second-crawl-ran")
+		got2, gerr2 := d.GetClosestPeers(context.Background(), key)
+		vfAssert(gerr2 == nil, "fullrt/closest-no-error")
+		for _, p := range got2 {
+			vfAssert(!gone[p], "fullrt/result-lists-only-peers-of-the-latest-completed-crawl")
+		}
+		if limit == 0 {
+			want := K
+			if len(still) < K {
+				want = len(still)
+			}
+			vfAssert(len(got2) == want, "fullrt/limit-disabled-returns-the-K-nearest")
+		}
+		for p := range d.Stat() {
+			_ = p
+		}
+		vfAssert(len(d.Stat()) == len(still), "fullrt/table-holds-exactly-the-peers-of-the-latest-crawl")
 	}
 	vfAssert(d.Close() == nil, "fullrt/close")
 	vfAssert(vfLiveGoroutines() == 1, "fullrt/close-returns-after-every-goroutine-exited")
